@@ -540,7 +540,7 @@ fn run_inner(ctx: &mut Ctx, fl: Flags) {
         run_history(ctx, &ops, (b'K', sig as u8), &fl, "core-dump");
     });
     // random histories
-    let n = ctx.n(3000, 10_000);
+    let n = ctx.n(3000, 100_000);
     ctx.family("histories", n, |ctx, rng, i| {
         let ops = gen_history(rng);
         let how = if rng.chance(700) { (b'x', rng.below(256) as u8) } else {
